@@ -56,12 +56,26 @@ times; its result (value by member name, bytes, count and bytes written, excepti
 with the same arguments evaluated right afterwards and (2) the immediate form in a new universe that executed only the definitional and
 instance-constructing / assigning lines of the cstruct objects concerned.  Every line of a session is recorded Python source, the replay
 script is the session.
+
+Types shared between cstruct objects (harness/v8_c14.py): 2-3 cstruct objects that differ in endianness and / or pointer width define the same
+type names (typedef, enum / flag, nested, main - possibly dynamically sized - structure, union; compiled / interpreted, aligned or not).  A type
+object of one object is registered on another by class - `b.add_type("x", a.S)`, `b.addtype("y", a.uint16)`, `a.E`, `a.word_t`, `a.resolve(...)`,
+`a.typedefs[...]`, built-in scalars of every width, floats, char / wchar, arrays made through the type (`a.uint16[3]`, `a.S[2]`), names handed on
+to a third object, existing names of `b` re-pointed with replace=True - and `b` then uses it: structures / unions / typedefs that embed the alias
+as member, array, pointer, bit field, expression-sized array (compiled or not, aligned or not), parses (good and truncated), dumps, writes,
+default constructions, `T[n]`, `cs.read`, `b.endian = ...`, `b.pointer = ...`, further loads.  After every step every object is observed through
+its own names (layout with the cstruct object each type is bound to, len, three parses with value / stream position / dump, default
+construction, a parse through `T[2]`; also 4-6 built-in scalars) and through its imported / mixed names: what an object shows through its own
+names never changes by a step on another object (in particular: the owner of a shared type shows what it showed before the add_type on the
+other object), what it shows through mixed names only changes when it or an object it imported from is re-configured; after every share (owner
+and importer), now and then in between and at the end every object shows what it shows in a new universe that executed only the definitional
+lines of the object and of those it imported from - for an exporting object a universe without any other cstruct object.
 """
 from __future__ import annotations
 
 import io
 
-from .. import defs, impl, s6_c14, t4_c14, u3_c14, v4_c14, v5_c14, v6_c14
+from .. import defs, impl, s6_c14, t4_c14, u3_c14, v4_c14, v5_c14, v6_c14, v8_c14
 from ..common import Case, Result, mkrng
 from ..structprops import rand_bytes
 
@@ -98,6 +112,14 @@ def run(env) -> Result:
                 "re-configured (endian, load, add_type); each later call of a held callable must equal the immediate form on the object it was "
                 "taken from at that moment (current member values) and the immediate form in a new universe that performed only the definitional "
                 "and assigning steps. "
+                "Types shared between cstruct objects (v8_c14): a type object of one cstruct object (structure, union, enum, typedef'd / built-in "
+                "scalar, array made through the type) is registered on another object of other endianness / pointer width with add_type() / addtype() "
+                "(new name or replace=True), embedded there in structures / unions / typedefs (member, array, pointer, bit field; compiled or not, "
+                "aligned or not), parsed, dumped, handed on; the importer changes endianness / pointer type and loads more. After every step every "
+                "object's own names (layout incl. the cstruct object each type is bound to, len, parses with stream position and dump, default "
+                "construction, T[2]) must show what they showed before unless that object itself was re-configured, its mixed names unless it or an "
+                "object it imported from was re-configured; after every share and at the end every object is compared with a new universe that "
+                "executed only the definitional lines of the object and of those it imported from. "
                 "distinct = (history prefix); non-trivial = history of >= 3 operations")
     dc = impl.dc()
     rnd = mkrng(env["seed"], "c14")
@@ -118,7 +140,7 @@ def run(env) -> Result:
         except Exception as e:  # noqa: BLE001
             return ("err", type(e).__name__)
 
-    for h in range(40 if tier == "quick" else 1200):
+    for h in range(40 if tier == "quick" else 800):
         ncs = rnd.choice([2, 2, 3])
         universes = []
         for i in range(ncs):
@@ -240,11 +262,16 @@ def run(env) -> Result:
     # types whose size / constants change between two parses (sizeof(T) and constants in parse-time array lengths)
     u3_c14.run(env, res, viol, mkrng(env["seed"], "c14:u3"), 60 if tier == "quick" else 1000)
     # what load(D, align=a, compiled=c) creates does not depend on the options of the earlier loads of the same object
-    v4_c14.run(env, res, viol, mkrng(env["seed"], "c14:v4"), 100 if tier == "quick" else 1500)
+    v4_c14.run(env, res, viol, mkrng(env["seed"], "c14:v4"), 100 if tier == "quick" else 1000)
     # bound dumps / write / read / reads callables kept across operations on other instances, types and cstruct objects
     v5_c14.run(env, res, viol, mkrng(env["seed"], "c14:v5"), 60 if tier == "quick" else 1500)
     # parses that fail inside the evaluation of an array-length expression, then good parses with the same types (harness/v6_c14.py)
     v6_c14.run(env, res, lambda w, d: viol(w, d), mkrng(env["seed"], "c14:v6"), impl.dc())
+    # type objects of one cstruct object registered on another one (add_type by class), then used there; the owner must not notice
+    if tier == "quick":
+        v8_c14.run(env, res, viol, mkrng(env["seed"], "c14:v8"), 20)
+    else:
+        v8_c14.run(env, res, viol, mkrng(env["seed"], "c14:v8"), 400, steps=(8, 24))
     res.sample({"history_example": "construct@cs0, inplace-array@cs0/inst0, construct@cs0, endian@cs1, parse@cs1, ..."})
     return res
 
@@ -260,5 +287,8 @@ def replay(body) -> int:
     if str(case.get("family", "")).startswith("v5:"):
         print("replay:", body.get("what"))
         return v5_c14.replay(case)
+    if str(case.get("family", "")).startswith("v8:"):
+        print("replay:", body.get("what"))
+        return v8_c14.replay(case)
     print("replay:", body.get("what"), body.get("case"))
     return 0
